@@ -114,3 +114,8 @@ pub fn server_cookie(msg: &DnsMessage, client: &[u8], key: &[u8]) -> [u8; 32] {
 pub async fn create_in_error(msg: &DnsMessage, err: Error) -> dnspkt::DNSPkt {
     DnsListenerHandler::create_in_error(msg, err).await
 }
+
+/// The route selection stage itself and the parsed `dns-routes` entries (the
+/// modules `dns::router` and `dns::config` are crate-private); used by C19.
+pub use super::config::{Handler, Route};
+pub use super::router::DnsRouteHandler;
